@@ -31,6 +31,7 @@ type Sys struct {
 	passiveObs string
 	passiveIs  string
 	copied     bool
+	swapped    bool
 	mut        stx.Mut
 	hist       []string
 	dead       bool
@@ -41,8 +42,9 @@ type Sys struct {
 	committed []committedState
 	// shadow model of the two storage slots of A0 (oracle v: a read returns the last value written,
 	// wherever transaction ends, intermediate roots, commits and reopen points fall)
-	slot    [2]int64
-	touched [2]bool // written since the object was (re)opened: reading these never goes to the trie
+	slot       [2]int64
+	slotAtCopy [2]int64
+	touched    [2]bool // written since the object was (re)opened: reading these never goes to the trie
 }
 
 type committedState struct {
@@ -97,7 +99,7 @@ var menus = map[string][]string{
 	"val":  {"vcreate(V1)", "vdeposit(V0)", "vstatus(V0)", "dlg+(V0)", "dlg+(V2)", "dlg-(V0)", "dlg-(V2)", "wadd", "wrem", "statreward"},
 	// two slots of one account: deleting one leaves a single sibling that, after a reopen, is not loaded
 	"slots": {"store(A0)", "store7(A0)", "store0(A0)", "store(A0,s1)", "store0(A0,s1)"},
-	"stk":   {"bal(A1)", "dlg+(V2)", "vcreate(V1)", "srec(V1)", "srec(D,V0)", "prel(D,V2)"},
+	"stk":   {"bal(A1)", "dlg+(V2)", "vcreate(V1)", "srec(V1)", "srec(D,V0)", "srec3(D,V0)", "prel(D,V2)"},
 }
 
 func (s *Sys) Enabled() []string {
@@ -114,6 +116,10 @@ func (s *Sys) Enabled() []string {
 		if a, v, _, _ := s.active.VerifJournalLens(); a == 0 && v == 0 {
 			ops = append(ops, "copy>orig", "copy>copy")
 		}
+	} else if s.passive != nil && !s.swapped {
+		// both sides of a copy go on being written in the node (miner: pending-state snapshot and the next
+		// block's state; side-chain state cache): continue on the OTHER side once
+		ops = append(ops, "swap")
 	}
 	return ops
 }
@@ -215,7 +221,26 @@ func (s *Sys) apply(op string, idx int) string {
 			s.active = re2
 		}
 		s.contentRootsOf(live, roots)
+	case "swap":
+		s.swapped = true
+		s.active, s.passive = s.passive, s.active
+		if s.passiveIs == "copy" {
+			s.passiveIs = "original"
+		} else {
+			s.passiveIs = "copy"
+		}
+		s.touched = [2]bool{true, true} // both objects are fully in memory: reading them does not warm anything new
+		var o string
+		if m, w := mc.CatchStack(func() { o = full(s.passive) }); m != "" {
+			s.dead = true
+			s.fail(fmt.Sprintf("panic reading one side of a copy at=%s msg=%s", w, trimNum(m)), m)
+			return "PANIC"
+		}
+		s.passiveObs = o
+		// the shadow model followed the side that was active; the other side still has the values of the copy point
+		s.slot, s.slotAtCopy = s.slotAtCopy, s.slot
 	case "copy>orig", "copy>copy":
+		s.slotAtCopy = s.slot
 		cp := st.Copy()
 		s.copied = true
 		o, c := full(st), ""
